@@ -123,7 +123,11 @@ class Run:
         out = "ok"
         if kind == "activate":
             try:
-                self.probes[op["p"]].__enter__()
+                # with-statement protocol or the explicit API of global probes (odd probes)
+                if op["p"] % 2:
+                    self.probes[op["p"]].activate()
+                else:
+                    self.probes[op["p"]].__enter__()
             except Exception as e:
                 from ptera.selector import SelectorError
                 if isinstance(e, SelectorError):
@@ -137,6 +141,8 @@ class Run:
                 if op.get("exc"):
                     exc = self.uni.mod.Oops("boom")
                     self.probes[op["p"]].__exit__(type(exc), exc, None)
+                elif op["p"] % 2:
+                    self.probes[op["p"]].deactivate()
                 else:
                     self.probes[op["p"]].__exit__(None, None, None)
             except Exception as e:
